@@ -13,6 +13,11 @@ from typing import Optional, Iterator, Iterable, Callable
 
 from transforge.label import Labels
 
+# Type variables and constraints are numbered in order of creation, so that
+# anything that lists them (printed signatures, labels) does so in an order
+# that does not depend on the iteration order of a set of objects
+_serial = count()
+
 # Verification hooks (inactive unless TRANSFORGE_VERIF=1): deterministic,
 # externally schedulable iteration order for pending-constraint re-checks.
 import os as _os
@@ -400,14 +405,14 @@ class TypeInstance(Type):
 
         if with_constraints:
             result_aux = []
-            for v in self.variables():
+            for v in sorted(self.variables(), key=lambda v: v.serial):
                 if v.lower:
                     result_aux.append(f"{v.text(*args)} >= {v.lower}")
                 if v.upper:
                     result_aux.append(f"{v.text(*args)} <= {v.upper}")
 
-            result_aux.extend(
-                c.text(*args) for c in self.constraints())
+            result_aux.extend(c.text(*args) for c in
+                sorted(self.constraints(), key=lambda c: c.serial))
             if result_aux:
                 result += f" [{', '.join(result_aux)}]"
         return result
@@ -810,6 +815,7 @@ class TypeVariable(TypeInstance):
         if _VERIF:
             self._constraints = _VerifOrderedSet()
         self.origin = origin
+        self.serial = next(_serial)
 
     def check_constraints(self) -> None:
         if _VERIF:
@@ -969,6 +975,7 @@ class Constraint(object):
     def __init__(self):
         if _VERIF:
             self._verif_seq = next(_verif_counter)
+        self.serial = next(_serial)
         self.fulfilled = False
         self.inform()
         self.fulfill()
